@@ -106,6 +106,8 @@ type WorkerOut struct {
 	Trouble    []string          `json:"trouble"`
 	WallS      float64           `json:"wall_s"`
 	RaceBuild  bool              `json:"race_build"`
+	DrawDigest uint64            `json:"draw_digest"` // hash of every decision of every run, in order
+	TraceDigest uint64           `json:"trace_digest"`
 }
 
 var engines = map[string]func(*simrt.Chooser, Options) RunResult{}
@@ -284,6 +286,13 @@ func cmdRun(args []string) {
 		res, trouble := oneRun(ch, opt, rl)
 		w.Trouble = append(w.Trouble, trouble...)
 		w.Runs++
+		for _, d := range ch.Rec {
+			w.DrawDigest = fnv(w.DrawDigest, uint64(d.N), uint64(d.V), hashString(d.Label))
+		}
+		for _, t := range res.Trace {
+			w.TraceDigest = fnv(w.TraceDigest, hashString(t))
+		}
+		w.TraceDigest = fnv(w.TraceDigest, res.Finger, uint64(res.Steps), uint64(res.Evals))
 		w.Evals += res.Evals
 		w.Steps += res.Steps
 		for k, v := range res.Counters {
@@ -295,6 +304,10 @@ func cmdRun(args []string) {
 		}
 		failed := false
 		for _, f := range res.Failures {
+			if f.concerns("HARNESS") {
+				w.Trouble = append(w.Trouble, f.Msg+" "+short(f.Detail, 1500))
+				continue
+			}
 			if !f.concerns(*prop) {
 				w.Others[f.Sig]++
 				if _, ok := w.OtherMsgs[f.Sig]; !ok {
